@@ -157,6 +157,7 @@ def check_collisions(ctx, case):
         ("user details; a failing expectThat with mismatch details", _script(extra={"setUp": attach, "test": [("call", "expectThat", [("sym", "matchee"), M], [])]}), 1, 2, 0),
         ("user details; a failing assertThat with mismatch details", _script(extra={"setUp": attach, "test": [("call", "assertThat", [("sym", "matchee"), M], [])]}), 1, 2, 0),
         ("user details; a fixture with details of the same names; the test fails", _script({"test": t1}, extra={"setUp": attach, "test": [("call", "useFixture", [F], [])]}), 1, 0, 2),
+        ("a user detail named like the next traceback, attached between two exceptions", _script({"test": t1, "tearDown": t2}, extra={"setUp": attach[3:], "tearDown": attach[1:3]}), 2, 0, 0),
         ("two failing expectThat in one test", _script(extra={"setUp": attach, "test": [("call", "expectThat", [("sym", "matchee"), M], []), ("call", "expectThat", [("sym", "matchee"), M], [])]}), 1, 4, 0),
     ]
     for label, script, n_tb, n_mismatch, n_fixture in scenarios:
@@ -167,7 +168,7 @@ def check_collisions(ctx, case):
             if det is None:
                 problems.add("there is not exactly one outcome with a details dict")
                 continue
-            for n in taken:
+            for n in (taken if "between two exceptions" not in label else taken[1:]):
                 if (n, C(n)) not in det:
                     problems.add(f"the user's detail {n!r} is {'replaced by ' + repr(dict(det)[n])[:80] if n in dict(det) else 'gone'} in the details of {oc}")
             if len({n for n, _ in det}) != len(det):
